@@ -95,7 +95,10 @@ def o_cutoff(rng, n=3, max_N=(6, 4, 3)):
     def gen():
         for k in range(n):
             order = (2, 3, 4)[k % 3]
-            yield {"crystal": crystal(rng, max_N=max_N[order - 2]), "orders": [order]}
+            # half of the cases: several inequivalent atoms (neighbour counts differ from atom to atom)
+            protos = ["mono", "wurtzite", "tetragonal2", "ortho_inv", "cscl", "rocksalt_prim"] if rng.random() < 0.5 else None
+            yield {"crystal": crystal(rng, max_N=max_N[order - 2], protos=protos), "orders": [order],
+                   "seed": rng.randrange(10 ** 6)}
     return O.run_oracle("cutoff", gen())
 
 
@@ -367,7 +370,7 @@ PROPS = {
         "lean": "SymfcModel.Props.C07", "gen": ["Cutoff", "ApiCompute", "PipelineSkel"],
         "corr": [{"fn": C.corr_combinations, "quick": {"n_cases": 45}, "thorough": {"n_cases": 300}},
                  {"fn": C.corr_perm_stage, "quick": {"n_cases": 24}, "thorough": {"n_cases": 150}}],
-        "oracle": [{"name": "cutoff", "fn": o_cutoff, "quick": {"n": 6}, "thorough": {"n": 24}, "search": {"n": 18}}],
+        "oracle": [{"name": "cutoff", "fn": o_cutoff, "quick": {"n": 6}, "thorough": {"n": 30}, "search": {"n": 36}}],
         "known": known_F1,
         "corpus": [{"name": "corpus_F1_order4_large_cutoff", "fn": corpus_F1_cutoff}],
         "trusted": [KERNELS["spglib"], KERNELS["float"],
